@@ -24,7 +24,7 @@ LEVEL_TEXT = ("Multi-file, irregular frame layouts with a time-dependent sheared
 LEVEL_NOTE = "Negation and the interpolation arithmetic are sign-symmetric in IEEE arithmetic, but increments accumulate in a different order in the two runs (float32 fields): tolerance 1e-5 cells relative to O(1) positions is used for float32 storage, 1e-9 for float64 storage."
 RULE = ("case = (frame layout, file partition, start/stop positions, release table, mode, scheme). Non-trivial: at least two release times and a frame hand-over inside the run; "
         "distinct by parameters.")
-MANDATORY = ["single_release_time_several_rows", "release_rows_outside_the_window", "duration_not_a_whole_number_of_steps", "split_output", "particle_variable_files_compared", "release_time_between_steps", "records_compared", "multi_file", "several_release_times", "continuous", "discrete", "scheme_EF", "scheme_RK2", "scheme_RK4", "start_between_frames",
+MANDATORY = ["reversed_run_warm_started", "single_release_time_several_rows", "release_rows_outside_the_window", "duration_not_a_whole_number_of_steps", "split_output", "particle_variable_files_compared", "release_time_between_steps", "records_compared", "multi_file", "several_release_times", "continuous", "discrete", "scheme_EF", "scheme_RK2", "scheme_RK4", "start_between_frames",
              "clock_readings_checked", "release_times_checked"]
 ASSUMPTIONS = ["frames on the model time grid; release times sorted in simulation order"]
 TIMEOUT = {"quick": 900, "thorough": 3400}
@@ -78,6 +78,8 @@ def build(case: dict[str, Any]):
         # discrete tables may state a time between two model steps (one time per step; released at the step before, in
         # simulation order, in both runs)
         frac = float(rng.choice([0.0, 0.0, 0.5, 0.25])) if (not cont and s + 1 < ns) else 0.0
+        if case["idx"] % 6 == 0:
+            frac = 0.0  # these cases are also restarted (below): everything on the time grid
         for _ in range(3 if single else int(rng.integers(1, 4))):
             rid += 1
             rows.append(dict(step=s, frac=frac, X=float(np.round(rng.uniform(6, imax - 7), 3)), Y=float(np.round(rng.uniform(5, jmax - 6), 3)), Z=float(np.round(rng.uniform(0, 80), 2)), rid=rid))
@@ -87,9 +89,9 @@ def build(case: dict[str, Any]):
         for s_ in (-2, -1, ns + 1):
             rid += 1
             rows.append(dict(step=s_, frac=0.0, X=9.5, Y=7.5, Z=5.0, rid=rid))
-    extra = dt // 2 if (case["idx"] % 5 == 2 and E > P[0]) else 0  # |stop - start| not a whole number of steps: both runs take floor(.) steps
+    extra = dt // 2 if (case["idx"] % 5 == 2 and E > P[0] and case["idx"] % 6) else 0  # |stop - start| not a whole number of steps: both runs take floor(.) steps
     return dict(dt=dt, P=P, files=files, S=S, E=E, ns=ns, imax=imax, jmax=jmax, N=N, dx=dx, pattern=pattern, amp=amp, prof=prof, store=store, scheme=scheme,
-                cont=cont, freq=freq, rows=rows, numrec=int(rng.choice([0, 2, 3])), outside=outside, extra=extra, single=single)
+                cont=cont, freq=freq, rows=rows, numrec=2 if case["idx"] % 6 == 0 else int(rng.choice([0, 2, 3])), outside=outside, extra=extra, single=single)
 
 
 def scenarios(b: dict[str, Any]):
@@ -135,7 +137,7 @@ def run_case(case: dict[str, Any], wd: Path) -> dict[str, Any]:
         from ladim.out_netcdf import Output  # noqa: PLC0415
 
         hk.wrap(Output, "write", lambda self, state: clock.append(str(self.timer.time)), None)
-        rres, rconf, _ = run_scenario(srev, wd / "rev")
+        rres, rconf, rworld = run_scenario(srev, wd / "rev")
     fres, fconf, _ = run_scenario(sfwd, wd / "fwd")
     sit["multi_file"] = int(len(b["files"]) > 1)
     sit["several_release_times"] = int(len({r["step"] for r in b["rows"]}) > 1)
@@ -175,6 +177,30 @@ def run_case(case: dict[str, Any], wd: Path) -> dict[str, Any]:
             V.append(C.viol(f"{fr_.path.name}: release_time particle variable of the reversed run ({ar[:6].tolist()} s before S) is not the mirror of the forward run's "
                             f"({bf[:6].tolist()} s after S)", **desc))
             break
+    on_grid = not any(r_.get("frac") for r_ in b["rows"]) and not b.get("extra")  # restart transparency is judged for set-ups on the time grid
+    if b.get("numrec", 0) > 0 and len(rfiles) > 1 and len(rfiles[0].records) and on_grid and case["idx"] % 2 == 0:
+        # the reversed run taken up again from its first output file: its clock goes on backwards from the last record of that file
+        run_w = dict(srev["run"], warm_start=dict(filename=str(rfiles[0].path), variables=["release_time", "rid"]))
+        run_w["output"] = dict(srev["run"]["output"], filename="out_001.nc")
+        wres, _wc, _ww = run_scenario(dict(world=None, run=run_w), wd / "rev_warm", world=rworld)
+        sit["reversed_run_warm_started"] = 1
+        if not wres.ok:
+            V.append(C.viol(f"warm start of the time-reversed run from {rfiles[0].path.name} did not complete: {wres.exc}", tb=wres.tb[-1000:], **desc))
+        else:
+            t_re = rfiles[0].records[-1].time
+            wrecs = {r.time: r for f_ in read_outputs(wres.outputs) for r in f_.records}
+            for r in rrec:
+                if r.time >= t_re:
+                    continue
+                w_ = wrecs.get(r.time)
+                if w_ is None or len(w_.pid) != len(r.pid) or np.any(np.asarray(w_.pid) != np.asarray(r.pid)) or (
+                        len(r.pid) and np.max(np.abs(np.asarray(w_.vars["X"]) - np.asarray(r.vars["X"]))) > (1e-9 if b["store"] == "f8" else 2e-5)):  # f4 fields: restart re-interpolates in single precision
+                    V.append(C.viol(f"reversed run warm-started at {t_re}: record at {r.time} {'is missing' if w_ is None else 'differs from the uninterrupted reversed run'} "
+                                    f"(records of the restarted run: {[str(t) for t in sorted(wrecs)][:6]})", **desc))
+                    break
+            late = [t for t in wrecs if t > t_re]
+            if late and not V:
+                V.append(C.viol(f"reversed run warm-started at {t_re} wrote records at later times {[str(t) for t in sorted(late)][:4]}: its clock did not go on backwards from the restart time", **desc))
     if len(rrec) != len(frec):
         V.append(C.viol(f"reversed run wrote {len(rrec)} records, mirrored forward run {len(frec)}", **desc))
     tol = 1e-9 if b["store"] == "f8" else 2e-5
